@@ -360,6 +360,29 @@ static blob deep_chain(long n) {
     blob r; r.b = b; r.n = (size_t)(p - b); return r;
 }
 
+/* directed: a chain of n nested groups that each CLAIM `claim` children (up to INT32_MAX) while only one element follows;
+ * no row groups.  A traversal whose child loop is bounded by the claimed count alone, and not by the end of the element
+ * array, spins claim iterations per group: open must stay proportional to the input size (a few dozen bytes). */
+static blob fat_chain(long n, uint32_t claim) {
+    size_t cap = 64 + 16 * (size_t)(n + 2);
+    uint8_t* b = h_alloc(cap); uint8_t* p = b;
+    uint64_t zz = ((uint64_t)claim << 1);
+    memcpy(p, "PAR1", 4); p += 4;
+    uint8_t* f0 = p;
+    *p++ = 0x15; *p++ = 0x02;
+    *p++ = 0x19; *p++ = 0xFC; put_varint(&p, (uint64_t)n + 2);
+    *p++ = 0x48; *p++ = 0x01; *p++ = 'r'; *p++ = 0x15; put_varint(&p, zz); *p++ = 0x00;
+    for (long i = 0; i < n; i++) { *p++ = 0x35; *p++ = 0x00; *p++ = 0x18; *p++ = 0x01; *p++ = 'g'; *p++ = 0x15; put_varint(&p, zz); *p++ = 0x00; }
+    *p++ = 0x15; *p++ = 0x02; *p++ = 0x25; *p++ = 0x00; *p++ = 0x18; *p++ = 0x01; *p++ = 'x'; *p++ = 0x00;
+    *p++ = 0x16; *p++ = 0x00;
+    *p++ = 0x19; *p++ = 0x0C;
+    *p++ = 0x00;
+    uint32_t L = (uint32_t)(p - f0);
+    *p++ = (uint8_t)L; *p++ = (uint8_t)(L >> 8); *p++ = (uint8_t)(L >> 16); *p++ = (uint8_t)(L >> 24);
+    memcpy(p, "PAR1", 4); p += 4;
+    blob r; r.b = b; r.n = (size_t)(p - b); return r;
+}
+
 /* directed: a v1 data page of an OPTIONAL INT64 column whose definition-level block announces k bytes more (or fewer)
  * than the page body holds behind the 4-byte prefix; the levels themselves (one RLE run "N times 1") are complete,
  * the page promises N = 200000 values and holds none.  Every variant must be refused (or read short) without touching
@@ -443,6 +466,13 @@ static void gen_c04(hctx* h) {
             if (f.n) for (int mode = 0; mode < 3; mode++) exercise(h, f, mode, desc);
             free(f.b);
         }
+        { static const long fn[] = { 1, 8, 30 }; static const uint32_t fc[] = { 0x7FFFFFFFu, 0x7FFFFFFFu, 100000000u };
+          for (int i = 0; i < 3; i++) {
+              char desc[48]; snprintf(desc, sizeof desc, "fatchain_%ld_%u", fn[i], fc[i]);
+              blob f = fat_chain(fn[i], fc[i]);
+              for (int mode = 0; mode < 3; mode++) exercise(h, f, mode, desc);
+              free(f.b);
+          } }
         static const long depths[] = { 40, 2000, 65536, 400000, 1000000 };
         for (int i = 0; i < 5; i++) {
             char desc[40]; snprintf(desc, sizeof desc, "deepchain_%ld", depths[i]);
